@@ -100,6 +100,27 @@ def brace_tokens(source, node) -> TokenRange:
     return first_token, end_token
 
 
+def include_parentheses(
+    source, token_range: TokenRange, braces: TokenRange
+) -> TokenRange:
+    """Extends the token range of an element by the parentheses which surround it,
+    like in `[(1 if a else 2)]`, because they belong to the element."""
+    atok = source.asttokens()
+    first_token, last_token = token_range
+    while True:
+        prev_token = atok.prev_token(first_token)
+        next_token = atok.next_token(last_token)
+        if (
+            prev_token.string == "("
+            and next_token.string == ")"
+            and prev_token.index > braces[0].index
+            and next_token.index < braces[1].index
+        ):
+            first_token, last_token = prev_token, next_token
+        else:
+            return first_token, last_token
+
+
 def generic_sequence_update(
     source: SourceFile,
     parent: Union[ast.List, ast.Tuple, ast.Dict, ast.Call],
@@ -199,7 +220,9 @@ def apply_all(all_changes: List[Change], recorder: ChangeRecorder):
 
             def list_token_range(entry):
                 r = list(source.asttokens().get_tokens(entry))
-                return r[0], r[-1]
+                return include_parentheses(
+                    source, (r[0], r[-1]), brace_tokens(source, parent)
+                )
 
             generic_sequence_update(
                 source,
@@ -220,7 +243,9 @@ def apply_all(all_changes: List[Change], recorder: ChangeRecorder):
                 if isinstance(node.parent, ast.keyword):
                     node = node.parent
                 r = list(atok.get_tokens(node))
-                return r[0], r[-1]
+                return include_parentheses(
+                    source, (r[0], r[-1]), (braces_left, braces_right)
+                )
 
             braces_left = atok.next_token(list(atok.get_tokens(parent.func))[-1])
             assert braces_left.string == "("
@@ -267,9 +292,16 @@ def apply_all(all_changes: List[Change], recorder: ChangeRecorder):
             }
 
             def dict_token_range(key, value):
+                braces = brace_tokens(source, parent)
+                key_tokens = list(source.asttokens().get_tokens(key))
+                value_tokens = list(source.asttokens().get_tokens(value))
                 return (
-                    list(source.asttokens().get_tokens(key))[0],
-                    list(source.asttokens().get_tokens(value))[-1],
+                    include_parentheses(
+                        source, (key_tokens[0], key_tokens[-1]), braces
+                    )[0],
+                    include_parentheses(
+                        source, (value_tokens[0], value_tokens[-1]), braces
+                    )[1],
                 )
 
             generic_sequence_update(
